@@ -105,7 +105,7 @@ class NonThreadedExecutor:
 
             self.errorstack = ErrorStack(
                 self.excinfo,
-                self.rolledback
+                self._pop_rolledback(self.excinfo[1])
             )
             if self.is_formula_error_used:
                 errmsg = traceback.format_exception_only(
@@ -124,7 +124,18 @@ class NonThreadedExecutor:
                 raise self.excinfo[1]
 
         else:
+            self.rolledback.clear()
             return self.buffer
+
+    def _pop_rolledback(self, exc):
+        """Empty ``rolledback`` and return the nodes rolled back by ``exc``
+
+        Nodes rolled back by other exceptions, i.e. exceptions raised
+        in formulas but handled by their callers, are discarded.
+        """
+        nodes = deque(n for n, e in self.rolledback if e is exc)
+        self.rolledback.clear()
+        return nodes
 
 
 class ThreadedExecutor(NonThreadedExecutor):
@@ -185,7 +196,7 @@ class ThreadedExecutor(NonThreadedExecutor):
 
                 self.errorstack = ErrorStack(
                     self.excinfo,
-                    self.rolledback
+                    self._pop_rolledback(self.excinfo[1])
                 )
                 if self.is_formula_error_used:
                     errmsg = traceback.format_exception_only(
@@ -200,6 +211,7 @@ class ThreadedExecutor(NonThreadedExecutor):
                     raise self.excinfo[1]
 
             else:
+                self.rolledback.clear()
                 return self.thread.buffer
 
         except FormulaError as err:
@@ -291,7 +303,10 @@ class CallStack(deque):
     def rollback(self):
         node = deque.pop(self)
         self.idxstack.pop()
-        self.executor.rolledback.append(node)
+        # Keep the exception being propagated with the node, so that nodes
+        # rolled back by exceptions that formulas handled themselves
+        # can be told apart from the chain of the escaping exception.
+        self.executor.rolledback.append((node, sys.exc_info()[1]))
         self.counter -= 1
         cells = node[OBJ]
 
